@@ -66,11 +66,25 @@ struct RCase {
 	/// (the log entry, with its cutoff, is only written at finalization)
 	#[serde(default)]
 	late_lock_gap: Option<u64>,
+	/// the target is finalized and posted before the blocks are mined (1: with change, 2: exact amount,
+	/// no change output): it is on chain, not yet seen confirmed, when the refresh runs at or past its cutoff
+	#[serde(default)]
+	posted: u8,
+	/// a second account holds a pending send without a cutoff whose log id equals the target's
+	/// (log ids are counted per account; the base world gives both accounts the same number of entries)
+	#[serde(default)]
+	other_acct: bool,
 }
 
 fn base_world(dir: &str) {
 	let w = World::create(dir, &[("A", "A"), ("B", "B"), ("M", "M")]);
 	w.mine_n("A", 4);
+	// a second account with as many log entries as the default one
+	w.w("A").create_account("acct1").unwrap();
+	w.w("A").set_account("acct1").unwrap();
+	w.mine_n("A", 4);
+	w.w("A").refresh().unwrap();
+	w.w("A").set_account("default").unwrap();
 	w.mine_n("B", 3);
 	w.mine_n("M", 3);
 	w.w("A").refresh().unwrap();
@@ -233,7 +247,19 @@ fn run_rcase_inner(w: &World, c: &RCase) -> Result<String, (String, String)> {
 		let _ = b.receive(&f1, None).unwrap();
 		older = Some(f1.id);
 	}
-	let mut args = default_args(5 * G);
+	if c.other_acct {
+		a.set_account("acct1").unwrap();
+		let o1 = a.init_send(default_args(4 * G)).unwrap();
+		a.lock(&o1).unwrap();
+		let _ = b.receive(&o1, None).unwrap();
+		a.set_account("default").unwrap();
+	}
+	let acct1_outputs = |w: &WalletH| -> Vec<(String, String, Option<u32>)> {
+		let mut v: Vec<_> = w.outputs().into_iter().filter(|o| o.root_key_id.to_bip_32_string() == "m/1/0").map(|o| (o.key_id.to_bip_32_string(), format!("{:?}", o.status), o.tx_log_entry)).collect();
+		v.sort();
+		v
+	};
+	let mut args = default_args(if c.posted == 2 { 60 * G - grin_core::libtx::tx_fee(1, 1, 1) } else { 5 * G });
 	args.ttl_blocks = c.ttl_blocks;
 	let s1 = if let Some(gap) = c.late_lock_gap {
 		args.late_lock = Some(true);
@@ -250,7 +276,11 @@ fn run_rcase_inner(w: &World, c: &RCase) -> Result<String, (String, String)> {
 	} else {
 		let s1 = a.init_send(args).unwrap();
 		a.lock(&s1).unwrap();
-		let _s2 = b.receive(&s1, None).unwrap();
+		let s2 = b.receive(&s1, None).unwrap();
+		if c.posted > 0 {
+			let s3 = a.finalize(&s2).unwrap();
+			a.post(s3.tx_or_err().unwrap()).unwrap();
+		}
 		s1
 	};
 	// control transaction without a cutoff, created alongside
@@ -267,6 +297,7 @@ fn run_rcase_inner(w: &World, c: &RCase) -> Result<String, (String, String)> {
 		slots.push(o);
 	}
 	let before = view(t, &slots);
+	let acct1_before = acct1_outputs(a);
 	let res = catch(|| t.refresh());
 	match res {
 		Err(p) => return Err(("C17/panic/refresh".into(), format!("refresh panicked: {}", p))),
@@ -274,6 +305,15 @@ fn run_rcase_inner(w: &World, c: &RCase) -> Result<String, (String, String)> {
 		Ok(Ok(_)) => {}
 	}
 	let after = view(t, &slots);
+	if c.other_acct && c.sender_side {
+		let now = acct1_outputs(a);
+		if now != acct1_before {
+			return Err((
+				"C17/refresh/other-account-changed".into(),
+				format!("the refresh of the default account changed the outputs of the other account, whose pending transaction has no cutoff: before {:?}, after {:?}", acct1_before, now),
+			));
+		}
+	}
 	let cutoff = c.ttl_blocks.map(|b| h0 + b);
 	let expect_cancel = cutoff.map(|c| tip >= c).unwrap_or(false);
 	let entries = t.txs();
@@ -281,6 +321,16 @@ fn run_rcase_inner(w: &World, c: &RCase) -> Result<String, (String, String)> {
 	let control = entries.iter().find(|e| e.tx_slate_id == Some(ctl.id)).unwrap();
 	let side = if c.sender_side { "sender" } else { "recipient" };
 	let is_cancelled = matches!(target.tx_type, TxLogEntryType::TxSentCancelled | TxLogEntryType::TxReceivedCancelled);
+	if c.posted > 0 && c.mined > 0 {
+		// the transaction is on chain: whatever its cutoff, the refresh must record it as confirmed
+		if is_cancelled || !target.confirmed {
+			return Err((
+				format!("C17/refresh/confirmed-on-chain-not-recorded/{}", side),
+				format!("the transaction was mined before the refresh (tip {}, cutoff {:?}) but the {}'s entry is {:?}, confirmed = {}", tip, cutoff, side, target.tx_type, target.confirmed),
+			));
+		}
+		return Ok("confirmed-on-chain".into());
+	}
 	if let Some(oid) = older {
 		let o = entries.iter().find(|e| e.tx_slate_id == Some(oid)).unwrap();
 		if matches!(o.tx_type, TxLogEntryType::TxSentCancelled | TxLogEntryType::TxReceivedCancelled) {
@@ -306,7 +356,7 @@ fn run_rcase_inner(w: &World, c: &RCase) -> Result<String, (String, String)> {
 		let outs = t.outputs();
 		if c.sender_side {
 			// inputs released, change gone
-			for o in before_create_a.iter() {
+			for o in before_create_a.iter().filter(|o| o.root_key_id == target.parent_key_id) {
 				let now = outs.iter().find(|x| x.key_id == o.key_id);
 				match now {
 					Some(n) if n.status == o.status => {}
@@ -384,15 +434,29 @@ pub fn run(_args: &[String]) -> i32 {
 			for sender_side in [true, false].iter() {
 				for others in (if thorough { vec![0u32, 1, 2] } else { vec![0u32, 2] }).iter() {
 					for older_far in [false, true].iter() {
-						rcases.push(RCase { ttl_blocks: *ttl, mined, sender_side: *sender_side, others: *others, older_far: *older_far, late_lock_gap: None });
+						rcases.push(RCase { ttl_blocks: *ttl, mined, sender_side: *sender_side, others: *others, older_far: *older_far, late_lock_gap: None, posted: 0, other_acct: false });
 						if *sender_side && !*older_far && *others == 0 && ttl.map(|t| t >= 2).unwrap_or(false) {
 							for gap in [1u64, 2].iter() {
-								rcases.push(RCase { ttl_blocks: *ttl, mined, sender_side: true, others: 0, older_far: false, late_lock_gap: Some(*gap) });
+								rcases.push(RCase { ttl_blocks: *ttl, mined, sender_side: true, others: 0, older_far: false, late_lock_gap: Some(*gap), posted: 0, other_acct: false });
 							}
 						}
 					}
 				}
 			}
+		}
+	}
+	for ttl in [None, Some(1u64), Some(2), Some(3), Some(50)].iter() {
+		for mined in 0u64..=4 {
+			for sender_side in [true, false].iter() {
+				for posted in [1u8, 2].iter() {
+					rcases.push(RCase { ttl_blocks: *ttl, mined, sender_side: *sender_side, others: 0, older_far: false, late_lock_gap: None, posted: *posted, other_acct: false });
+				}
+			}
+		}
+	}
+	for ttl in [None, Some(1u64), Some(2), Some(50)].iter() {
+		for mined in 0u64..=3 {
+			rcases.push(RCase { ttl_blocks: *ttl, mined, sender_side: true, others: 0, older_far: false, late_lock_gap: None, posted: 0, other_acct: true });
 		}
 	}
 	let twice = |first: Result<String, (String, String)>, again: &dyn Fn() -> Result<String, (String, String)>| match first {
